@@ -117,11 +117,16 @@ pub fn run_c07(ctx: &mut Ctx, _replay: Option<&[String]>) {
     for rate in enum_iterator::all::<ccsds::AR4JARate>() {
         for size in enum_iterator::all::<ccsds::AR4JAInfoSize>() {
             let k = match format!("{:?}", size).as_str() { "K1024" => 1024, "K4096" => 4096, _ => 16384 };
-            if k == 16384 && !ctx.thorough {
+            // quick tier: of the three k = 16384 codes only rate 4/5 (M = 2048; the model expands it in 5 s, rate 1/2 takes 3.5 min)
+            if k == 16384 && !ctx.thorough && format!("{:?}", rate) != "R4_5" {
                 ctx.tag("k16384-skipped-in-quick-tier");
                 continue;
             }
-            let h = ccsds::AR4JACode::new(rate, size).h();
+            let Ok(h) = guarded(move || ccsds::AR4JACode::new(rate, size).h()) else {
+                // the construction itself panicked: a finding for this code
+                ctx.emit(&format!("c07 ar4ja {:?} {}", rate, k), "construction-panicked", true, &["ar4ja", "construction-panicked"]);
+                continue;
+            };
             // dense elimination is O(r^2 n): only the k = 1024 codes in quick, k = 4096 in thorough
             if k == 1024 || (k == 4096 && ctx.thorough) {
                 let seed = rng.next();
@@ -139,6 +144,9 @@ pub fn run_c07(ctx: &mut Ctx, _replay: Option<&[String]>) {
         }
     }
     let h = ccsds::C2Code::new().h();
+    // the other public way to obtain the code object
+    let hd = <ccsds::C2Code as Default>::default().h();
+    ctx.emit("c07 c2", &dump_rows_sorted_cols(&hd), true, &["c2-default-constructed"]);
     enc.push(format!("C2:girth<=6:{:?}", h.girth_with_max(6)));
     ctx.emit("c07 girth c2", &format!("{:?}", h.girth_with_max(6)).replace(' ', ""), true, &["documented-girth"]);
     ctx.emit("c07 c2", &dump_rows_sorted_cols(&h), true, &["c2"]);
